@@ -46,8 +46,142 @@ class Session:
         return f in self.common and bool(addpath_mode(self.l, f) & 2) and bool(addpath_mode(self.r, f) & 1)
 
 # ------------------------------------------------------------------ the values of a case
+def be24(n): return [(n >> 16) & 255, (n >> 8) & 255, n & 255]
+
+def rd_ok(rd): return len(rd) == 8 and rd[0] == 0 and rd[1] <= 2
+
+def fs_comp_ok(c, v6):
+    if c[0] == 'p':
+        # RFC 8956 3.1: length 0 with offset 0 matches every address; otherwise offset < length < 129
+        return c[1] in (1, 2) and c[2] <= (128 if v6 else 32) and (c[3] == 0 or (v6 and c[3] < c[2]))
+    ops = c[2]
+    # RFC 8955 4.2.1.1: the end-of-list bit is set in the last <operator, value> pair and only there;
+    # the length bits are derived from the value
+    return (3 <= c[1] <= (13 if v6 else 12)) and len(ops) >= 1 and all(0 <= o[0] < 256 and o[0] & 0x30 == 0 and 0 <= o[1] < 2 ** 64 for o in ops) and \
+        all((o[0] & 0x80 != 0) == (k == len(ops) - 1) for k, o in enumerate(ops))
+
+def evpn_ok(n):
+    k = n[1]
+    if not rd_ok(n[2]): return False
+    ipok = lambda b: len(b) in (4, 16)
+    if k == 1: return len(n[3]) == 10 and n[4] < 2 ** 32 and n[5] < 2 ** 24
+    if k == 2: return len(n[3]) == 10 and n[4] < 2 ** 32 and len(n[5]) == 6 and len(n[6]) in (0, 4, 16) and n[7] < 2 ** 24 and (n[8] is None or n[8] < 2 ** 24)
+    if k == 3: return n[3] < 2 ** 32 and ipok(n[4])
+    if k == 4: return len(n[3]) == 10 and ipok(n[4])
+    if k == 5: return len(n[3]) == 10 and n[4] < 2 ** 32 and ipok(n[6]) and len(n[7]) == len(n[6]) and n[5] <= 8 * len(n[6]) and n[8] < 2 ** 24
+    return False
+
+def enc_op(o):
+    v = o[1]
+    order = 0 if v <= 0xff else 1 if v <= 0xffff else 2 if v <= 0xffffffff else 3
+    return [o[0] | (order << 4)] + list(v.to_bytes(1 << order, 'big'))
+
+FS6_FROM_BIT0 = [False]
+
+def fs6_pattern(length, off, addr):
+    """RFC 8956 3.1: <type, length, offset, pattern, padding>: the pattern is the length - offset bits of
+    the address that follow the first [offset] bits, left-aligned and padded to an octet boundary.
+    (The code under test and its decoder -- and GoBGP -- write ceil(length / 8) octets from bit 0 whatever
+    the offset: known finding C04-fs6-prefix-offset; FS6_FROM_BIT0 selects that layout.)"""
+    if FS6_FROM_BIT0[0] or off == 0:
+        return list(addr[:(length + 7) // 8])
+    v = (int.from_bytes(bytes(addr), 'big') << off) & ((1 << 128) - 1)
+    return list(v.to_bytes(16, 'big'))[:(max(length - off, 0) + 7) // 8]
+
+def enc_nlri(n, withdraw=False):
+    """the octets of one NLRI as the RFCs lay it out (4271 4.3, 4364 4.3.4, 8277 2, 8955 4 / 8956 3,
+    4684 4, 7432 7 / 9136 3, 9830 2.1)"""
+    t = n[0]
+    def labs(ls):
+        out = []
+        for k, v in enumerate(ls):
+            raw = (v << 4) | (1 if k == len(ls) - 1 else 0)
+            out += be24(raw)
+        return out
+    if t in ('v4', 'v6'): return [n[1]] + n[2][:(n[1] + 7) // 8]
+    if t in ('vpn4', 'vpn6'): return [24 * len(n[1]) + 64 + n[3]] + labs(n[1]) + n[2] + n[4][:(n[3] + 7) // 8]
+    if t in ('lab4', 'lab6'):
+        if withdraw: return [24 + n[2], 0x80, 0, 0] + n[3][:(n[2] + 7) // 8]
+        return [24 * len(n[1]) + n[2]] + labs(n[1]) + n[3][:(n[2] + 7) // 8]
+    if t == 'fs':
+        body = list(n[2] or [])
+        for c in n[3]:
+            if c[0] == 'p':
+                if n[1]: body += [c[1], c[2], c[3]] + fs6_pattern(c[2], c[3], c[4])
+                else: body += [c[1], c[2]] + c[4][:(c[2] + 7) // 8]
+            else:
+                body += [c[1]]
+                for o in c[2]: body += enc_op(o)
+        return ([len(body)] if len(body) < 240 else [0xF0 | (len(body) >> 8), len(body) & 255]) + body
+    if t == 'rtc':
+        return [[0], [32] + be32(n[2]), [96] + be32(n[2]) + list(n[3])][n[1]]
+    if t == 'evpn':
+        k = n[1]
+        if k == 1: d = n[2] + n[3] + be32(n[4]) + be24(n[5])
+        elif k == 2: d = n[2] + n[3] + be32(n[4]) + [48] + n[5] + [8 * len(n[6])] + n[6] + be24(n[7]) + (be24(n[8]) if n[8] is not None else [])
+        elif k == 3: d = n[2] + be32(n[3]) + [8 * len(n[4])] + n[4]
+        elif k == 4: d = n[2] + n[3] + [8 * len(n[4])] + n[4]
+        else: d = n[2] + n[3] + be32(n[4]) + [n[5]] + n[6] + n[7] + be24(n[8])
+        return [k, len(d)] + d
+    if t == 'srp': return [8 * (8 + len(n[3]))] + be32(n[1]) + be32(n[2]) + n[3]
+    if t == 'ls':
+        # RFC 9552 5.2: <NLRI type (2), length (2), protocol id, identifier (8), descriptor TLVs <type (2), length (2), value>>;
+        # node descriptors in the container TLV 256 (local) / 257 (remote); RFC 9514 6: SRv6 SID information TLV 518
+        tlv = lambda t_, v_: be16(t_) + be16(len(v_)) + list(v_)
+        tl = lambda l: sum((tlv(x[0], x[1]) for x in l), [])
+        k = n[1]
+        if k == 0:
+            body, ty = list(n[3]), n[2]
+        else:
+            body = [n[2]] + be32(n[3] >> 32) + be32(n[3] & 0xffffffff) + tlv(256, tl(n[4]))
+            ty = k
+            if k == 2: body += tlv(257, tl(n[5])) + tl(n[6])
+            elif k in (3, 4): body += tl(n[5])
+            elif k == 6: body += sum((tlv(518, be16(s[0]) + [0, 0] + list(s[1])) for s in n[5]), [])
+        return be16(ty) + be16(len(body)) + body
+    if t == 'mup':
+        # draft-ietf-bess-mup-safi 3.1: architecture type (1 = 3GPP-5G), route type (2), length (1), route
+        k = n[1]
+        if k == 1: d = n[2] + [n[3]] + n[4][:(n[3] + 7) // 8]
+        elif k == 2: d = n[2] + n[3]
+        elif k == 3: d = n[2] + [n[3]] + n[4][:(n[3] + 7) // 8] + be32(n[5]) + [n[6]] + [8 * len(n[7])] + n[7] + ([0] if n[8] is None else [8 * len(n[8])] + n[8])
+        else: d = n[2] + [n[3]] + n[4] + be32(n[5])[:(n[3] - 8 * len(n[4]) + 7) // 8]
+        return [1, 0, k, len(d)] + d
+    return list(n[2])
+
 def nlri_ok(n):
     t = n[0]
+    if t == 'fs':
+        if not ((n[2] is None or rd_ok(n[2])) and all(fs_comp_ok(c, n[1]) for c in n[3])): return False
+        e = enc_nlri(n)
+        return len(e) - (1 if e[0] < 0xF0 else 2) <= 4095     # the length prefix has 12 bits
+    if t == 'rtc': return n[1] in (0, 1, 2) and n[2] < 2 ** 32 and (n[1] != 2 or len(n[3]) == 8)
+    if t == 'evpn': return evpn_ok(n)
+    if t == 'srp': return n[1] < 2 ** 32 and n[2] < 2 ** 32 and len(n[3]) in (4, 16)
+    if t == 'ls':
+        k = n[1]
+        if k == 0:
+            return n[2] < 65536 and len(n[3]) < 65536 and (n[2] not in (1, 2, 3, 4, 6) or len(n[3]) < 9)
+        def nd_ok(l):
+            tys = [x[0] for x in l]
+            return tys == sorted(set(tys)) and all(x[0] in (512, 513, 514, 515, 516, 517) and (x[0] == 515 or len(x[1]) == 4) for x in l)
+        tl_ok = lambda l: all(x[0] < 65536 and len(x[1]) < 65536 for x in l)
+        if not (n[2] < 256 and n[3] < 2 ** 64 and nd_ok(n[4])): return False
+        if k == 1: return True
+        if k == 2: return nd_ok(n[5]) and tl_ok(n[6]) and all(x[0] != 263 or len(x[1]) % 2 == 0 for x in n[6])
+        if k in (3, 4): return tl_ok(n[5]) and all((x[0] != 263 or len(x[1]) % 2 == 0) for x in n[5])
+        if k == 6: return all(s[0] < 65536 and len(s[1]) == 16 for s in n[5])
+        return False
+    if t == 'mup':
+        k = n[1]
+        if not rd_ok(n[2]): return False
+        w = len(n[4]) if k != 2 else len(n[3])
+        if w not in (4, 16): return False
+        if k == 1: return n[3] <= 8 * w
+        if k == 2: return True
+        if k == 3: return n[3] <= 8 * w and n[5] < 2 ** 32 and n[6] < 256 and len(n[7]) == w and (n[8] is None or len(n[8]) == w)
+        tb = (n[3] - 8 * w + 7) // 8
+        return 8 * w <= n[3] <= 8 * w + 32 and n[5] < 2 ** 32 and n[5] % (256 ** (4 - tb)) == 0
     if t == 'v4': return n[1] <= 32
     if t == 'v6': return n[1] <= 128
     if t in ('vpn4', 'vpn6'):
@@ -61,6 +195,7 @@ def nlri_size(n):
     if t in ('v4', 'v6'): return 1 + (n[1] + 7) // 8
     if t in ('vpn4', 'vpn6'): return 1 + 3 * len(n[1]) + 8 + (n[3] + 7) // 8
     if t in ('lab4', 'lab6'): return 1 + 3 * len(n[1]) + (n[2] + 7) // 8
+    if t in ('fs', 'rtc', 'evpn', 'srp', 'mup', 'ls'): return len(enc_nlri(n))
     return len(n[2])
 
 def nlri_key(n, withdraw=False):
@@ -73,7 +208,32 @@ def nlri_key(n, withdraw=False):
     if t in ('lab4', 'lab6'):
         # RFC 8277 2.4: the label field of a withdrawal carries no information
         return (t, None if withdraw else tuple(n[1])) + sig(n[2], n[3])
+    if t == 'fs':
+        comps = tuple(('p', c[1], c[2], c[3] if n[1] else 0) + sig(c[2], c[4])[1:] if c[0] == 'p' else ('o', c[1], tuple(tuple(o) for o in c[2])) for c in n[3])
+        return ('fs', n[1], None if n[2] is None else tuple(n[2]), comps)
+    if t == 'rtc': return ('rtc', n[1], n[2] if n[1] else 0, tuple(n[3]) if n[1] == 2 else ())
+    if t == 'evpn': return ('evpn',) + tuple(tuple(x) if isinstance(x, list) else x for x in n[1:])
+    if t == 'srp': return ('srp', n[1], n[2], tuple(n[3]))
+    if t == 'ls':
+        fz = lambda x: tuple(fz(y) for y in x) if isinstance(x, list) else x
+        return ('ls',) + fz(list(n[1:]))
+    if t == 'mup':
+        k = n[1]
+        # a prefix is identified by its length and significant octets
+        if k in (1, 3):
+            nb = (n[3] + 7) // 8
+            return ('mup', k, tuple(n[2]), n[3], tuple(n[4][:nb])) + tuple(tuple(x) if isinstance(x, list) else x for x in n[5:])
+        return ('mup',) + tuple(tuple(x) if isinstance(x, list) else x for x in n[1:])
     return ('raw', tuple(n[2]))
+
+def as_input_kind(n, raw_input):
+    """a case that gives its NLRI as wire octets is compared on the RFC encoding of what the peer decoded"""
+    if raw_input and n[0] in ('fs', 'rtc', 'evpn', 'srp', 'mup', 'ls'):
+        # (octets in, octets out: a Flowspec IPv6 prefix with an offset in the layout the crate's decoder read it in)
+        old, FS6_FROM_BIT0[0] = FS6_FROM_BIT0[0], True
+        try: return ['raw', 0, enc_nlri(n)]
+        finally: FS6_FROM_BIT0[0] = old
+    return n
 
 def val_to_nlri(v):
     t = v[0]
@@ -83,6 +243,18 @@ def val_to_nlri(v):
     if t == 3: return ['vpn6', v[1], v[2], v[3], v[4]]
     if t == 4: return ['lab4', v[1], v[2], v[3]]
     if t == 5: return ['lab6', v[1], v[2], v[3]]
+    if t == 10:
+        comps = [['p', c[1], c[2], c[3], c[4]] if c[0] == 0 else ['o', c[1], c[2]] for c in v[3]]
+        return ['fs', v[1], v[2][0] if v[2] else None, comps]
+    if t == 11: return ['rtc', v[1], v[2], v[3]]
+    if t == 12:
+        if v[1] == 2: return ['evpn', 2, v[2], v[3], v[4], v[5], v[6], v[7], v[8][0] if v[8] else None]
+        return ['evpn'] + list(v[1:])
+    if t == 13: return ['srp', v[1], v[2], v[3]]
+    if t == 15: return ['ls'] + list(v[1:])
+    if t == 14:
+        if v[1] == 3: return ['mup', 3, v[2], v[3], v[4], v[5], v[6], v[7], v[8][0] if v[8] else None]
+        return ['mup'] + list(v[1:])
     return ['raw', v[1], v[2]]
 
 def aspath_segments(b):
@@ -137,7 +309,8 @@ def wire_attrs(attrs, two_byte):
                     if t in (1, 2):
                         v4 += [t, len(asns)]
                         for x in asns: v4 += be32(x)
-                out.append((192, 17, v4))
+                if v4:      # nothing but confederation segments: there is no AS4_PATH to send (an empty one is malformed, RFC 6793 6)
+                    out.append((192, 17, v4))
         elif two_byte and code == 7:
             asn = rd32(b, 0)
             out.append((192, 7, be16(23456 if asn > 65535 else asn) + b[4:8]))
@@ -149,6 +322,27 @@ def wire_attrs(attrs, two_byte):
 
 def wire_attr_len(wa):
     return sum(len(v) + (4 if (len(v) > 255 or fl & 0x10) else 3) for fl, code, v in wa)
+
+def seg_hops(segs):
+    return sum(1 if t == 1 else len(a) if t == 2 else 0 for t, a in segs)
+
+def rfc6793_reconcile(as_path, as4_path):
+    """RFC 6793 4.2.3 on segment lists: AS4_PATH is ignored when it has more hops than AS_PATH, else the
+    leading (difference) hops of AS_PATH are prepended to it"""
+    n = seg_hops(as_path) - seg_hops(as4_path)
+    if n < 0:
+        return list(as_path)
+    out = []
+    for t, a in as_path:
+        if n == 0:
+            break
+        if t == 2:
+            k = min(n, len(a)); out.append((2, a[:k])); n -= k
+        elif t == 1:
+            out.append((t, a)); n -= 1
+        else:
+            out.append((t, a))
+    return out + list(as4_path)
 
 def expected_attrs(attrs, two_byte):
     """what the receiver must hold: the same attributes, modulo the extended-length flag; an
@@ -164,9 +358,17 @@ def expected_attrs(attrs, two_byte):
             if two_byte and code == 2:
                 segs = aspath_segments(b)
                 # RFC 6793 carries no confederation segments in AS4_PATH: with both confederation
-                # segments and wide AS numbers the reconstruction is not the identity
-                if any(t in (3, 4) for t, _ in segs) and any(x > 65535 for _, a in segs for x in a):
-                    aspath_exact = False
+                # segments and wide AS numbers the receiver's reconstruction (4.2.3) is not the identity;
+                # what it must hold is the reconstruction from the two attributes the RFC has the sender write
+                if any(x > 65535 for _, a in segs for x in a):
+                    down = [(t, [23456 if x > 65535 else x for x in a]) for t, a in segs]
+                    as4 = [(t, a) for t, a in segs if t in (1, 2)]
+                    rec = rfc6793_reconcile(down, as4) if as4 else down
+                    rb = []
+                    for t, a in rec:
+                        rb += [t, len(a)]
+                        for x in a: rb += be32(x)
+                    out[-1] = (1, code, CANON[code], tuple(rb))
         else:
             if flags & 0x40:
                 out.append((2, code, flags & ~0x10 & 0xff, tuple(b)))
@@ -398,6 +600,33 @@ def judge(c, o, prof):
     reach = t == 'reach'
     ap = sess.addpath(f)
     want_keys = sorted((e[0] if ap else 0, nlri_key(e[1], not reach)) for e in entries)
+    # the NLRI fields of the frames, concatenated, are the RFC encodings of the entries, in order
+    # (python mirror of reach_frames_all_families / unreach_frames_all_families with the RFC encoders)
+    try:
+        region = []
+        for fr in frames:
+            wd_, tl_, nl_ = W.read_update(fr)
+            if not mp_family(f, sess):
+                region += nl_ if reach else wd_
+            else:
+                for fl, code, v in tl_:
+                    if reach and code == 14:
+                        g, nhb, res_, body = W.read_mp_reach(v)
+                        if g != f: raise Bad('MP_REACH_NLRI for family %d' % g)
+                        region += body
+                    if not reach and code == 15:
+                        g, body = W.read_mp_unreach(v)
+                        if g != f: raise Bad('MP_UNREACH_NLRI for family %d' % g)
+                        region += body
+    except Bad as e:
+        return '%s: %s' % (prof, e)
+    want_region = []
+    for e in entries:
+        want_region += (be32(e[0]) if ap else []) + enc_nlri(e[1], withdraw=not reach)
+    if region != want_region:
+        k = next((x for x in range(min(len(region), len(want_region))) if region[x] != want_region[x]), min(len(region), len(want_region)))
+        return '%s: the NLRI octets of the frames differ from the RFC encoding of the entries at offset %d (%d octets written, %d expected): got %s, expected %s' % (
+            prof, k, len(region), len(want_region), region[max(0, k - 4):k + 12], want_region[max(0, k - 4):k + 12])
     if (f >> 16) in (1, 2) and (f & 255) in (1, 2):
         try:
             got = routes_from_frames(frames, sess, f, reach)
@@ -407,6 +636,19 @@ def judge(c, o, prof):
         gk = sorted((pid, (kind, mk, oct_)) for pid, mk, oct_ in got)
         if gk != want_keys:
             return '%s: the frames carry %d prefixes, the message %d: %s' % (prof, len(gk), len(want_keys), diff(gk, want_keys))
+    if reach:
+        # the attributes on the wire are the message's, in the RFC 6793 4.2.2 form on a two-octet-AS
+        # session, the same in every frame (read by the Spec reader, not by the peer's decoder)
+        want_wire = [(fl & ~0x10 & 0xff, code, tuple(v)) for fl, code, v in wire_attrs(m[3], sess.two_byte)]
+        for k, fr in enumerate(frames):
+            wd_, tl, nl_ = W.read_update(fr)
+            got_wire = [(fl & ~0x10 & 0xff, code, tuple(v)) for fl, code, v in tl if code not in (3, 14)]
+            if got_wire != want_wire:
+                return '%s: frame %d: attributes on the wire differ from the message: %s' % (prof, k, diff(got_wire, want_wire))
+            for fl, code, v in tl:
+                if (fl & 0x10 == 0) != (len(v) <= 255) and code not in (14,) and not any(a[1] == code and a[0] == 2 and a[2] & 0x10 for a in m[3]):
+                    return '%s: frame %d: attribute %d of %d octets has extended-length flag %d' % (prof, k, code, len(v), fl & 0x10)
+    raw_input = any(e[1][0] == 'raw' for e in entries)
     got_keys = []
     exp_attrs, aspath_exact = expected_attrs(m[3], sess.two_byte) if reach else ([], True)
     for k, d in enumerate(decoded):
@@ -427,7 +669,7 @@ def judge(c, o, prof):
                 if s[0] != f:
                     return '%s: frame %d: family %d, expected %d' % (prof, k, s[0], f)
                 ents = s[2] if reach else s[1]
-                got_keys += [(e[0], nlri_key(val_to_nlri(e[1]), not reach)) for e in ents]
+                got_keys += [(e[0], nlri_key(as_input_kind(val_to_nlri(e[1]), raw_input), not reach)) for e in ents]
                 if reach:
                     nh = s[1][0] if s[1] else None
                     if nh != plan[1]:
@@ -459,6 +701,19 @@ def oracle(c, obs):
     return None
 
 def in_known_class(kf, c, obs, why):
+    if kf.get('id') == 'C04-fs6-prefix-offset':
+        # exactly the known deviation: the case holds an IPv6 Flowspec prefix component with a non-zero
+        # offset, the oracle objects to the NLRI octets, and with the layout of the finding (pattern
+        # counted from bit 0) in place of RFC 8956's the oracle has no objection left
+        m = c['m']
+        if m[0] not in ('reach', 'unreach') or 'NLRI octets of the frames differ' not in (why or ''):
+            return False
+        es = expand_entries(m[4] if m[0] == 'reach' else m[2])
+        if not any(e[1][0] == 'fs' and e[1][1] and any(x[0] == 'p' and x[3] != 0 for x in e[1][3]) for e in es):
+            return False
+        old, FS6_FROM_BIT0[0] = FS6_FROM_BIT0[0], True
+        try: return oracle(c, obs) is None
+        finally: FS6_FROM_BIT0[0] = old
     return False
 
 def nontrivial_key(c, obs):
@@ -475,8 +730,14 @@ def nontrivial_key(c, obs):
         return ('open', len(o[1]), tuple(o[1][:80]))
     return None
 
+def applicable(c):
+    """does the property text demand anything of this case (False: a value the daemon cannot build)"""
+    return judge(c, [-1], '') is not None
+
 def classify(c, obs):
     tags = list(c.get('tags', []))
+    if not applicable(c):
+        tags = ['unjudged'] + ['unjudged_' + t for t in tags if t not in ('audit', 'reach', 'unreach', 'mp')]
     o = obs[0]
     if o == [-1]: tags.append('obs_panic')
     elif o == [-9]: tags.append('obs_rejected_by_harness')
